@@ -212,10 +212,27 @@ fn main() {
         json!("every ordered pair (a, b) of word sequences over the word alphabet up to the length bound (shortlex; one unit per a) x every pair of text formats x ignore_case, enumerated exhaustively; edited_words is checked in the ignore_case = false cases. A case is non-trivial when both texts have words, their LCS is positive and the (case-folded when requested) word sequences differ"),
     );
     run.assumptions.push("only ASCII whitespace separates words (predicate enforced per case): there the code's ASCII split and a Unicode whitespace split agree".into());
-    run.assumptions.push("case-insensitive word equality is str::to_lowercase on both words; all enumerated words are ASCII".into());
+    run.assumptions.push("case-insensitive word equality is str::to_lowercase on both words (phase 3 uses non-ASCII letters whose case variants differ in byte length)".into());
     // phase 2: words of more than one letter that share prefixes, suffixes and differ in case only in
     // the middle (word equality must compare whole words); single-space layout, via the
     // self-contained per-text check
+    // phase 3: non-ASCII words whose case variants have different UTF-8 lengths (capital sharp s,
+    // Kelvin sign) next to ordinary ones
+    let w3 = ["\u{1e9e}", "ß", "\u{212a}", "k", "Ä", "ä"];
+    let seqs3 = sequences(w3.len(), run.pick(3, 4));
+    let texts3: Vec<String> = seqs3.iter().map(|s| s.iter().map(|i| w3[*i]).collect::<Vec<_>>().join(" ")).collect();
+    run.bounds.insert("non_ascii_case_phase".into(), json!(format!("all ordered pairs of the {} word sequences over {w3:?} x ignore_case, single-space layout", seqs3.len())));
+    let base3 = texts.len() + sequences(6, run.pick(3, 4)).len();
+    for (ia, a) in texts3.iter().enumerate() {
+        if !run.unit((base3 + ia) as u64) {
+            continue;
+        }
+        for b in &texts3 {
+            for ic in [false, true] {
+                check_texts(&mut run, a, b, ic);
+            }
+        }
+    }
     let w2 = ["a", "ab", "aB", "b", "bab", "ba"];
     let seqs2 = sequences(w2.len(), run.pick(3, 4));
     let texts2: Vec<String> = seqs2.iter().map(|s| s.iter().map(|i| w2[*i]).collect::<Vec<_>>().join(" ")).collect();
